@@ -12,7 +12,8 @@ import (
 
 // ---------------------------------------------------------------- pools
 
-var intPool = []int64{0, 1, -1, 2, 3, 7, 10, -5, 100, 9999, 10000, math.MaxInt64, math.MinInt64, math.MaxInt64 - 1, math.MinInt64 + 1}
+var intPool = []int64{0, 1, -1, 2, 3, 7, 10, -5, 100, 9999, 10000, math.MaxInt64, math.MinInt64, math.MaxInt64 - 1, math.MinInt64 + 1,
+	math.MinInt32, math.MaxInt32, 1 << 32, 1<<53 + 1, -(1 << 53) - 1} // (narrower widths: a 32-bit or float64 shortcut shows at these)
 
 // plain strings: no character that needs care in Dump output or layout.
 var strPool = []string{"a", "", "b", "ab", "a b", "1.2.3", "1.2", "2.0.0", "1.x", "10000.1", "0.0.1", "9999.9999.9999",
